@@ -186,6 +186,9 @@ func (t *translator) typeOf(e ast.Expr) trType {
 		if x.Op == token.NOT {
 			return tBool
 		}
+		if _, ok := x.X.(*ast.CompositeLit); ok && x.Op == token.AND {
+			return tOpaque
+		}
 	case *ast.BinaryExpr:
 		if x.Op == token.ADD && (isBytesLike(t.typeOf(x.X)) || isBytesLike(t.typeOf(x.Y))) {
 			return tStr
@@ -615,6 +618,17 @@ func (t *translator) stmts(list []ast.Stmt, ind string) string {
 		parts = append(parts, t.outs...)
 		return "(" + strings.Join(parts, ", ") + ")"
 	case *ast.AssignStmt:
+		if x.Tok == token.ASSIGN && len(x.Lhs) == 1 && len(x.Rhs) == 1 {
+			// h.F = e for a local pointer h of which only nil / non-nil is tracked: no effect on anything
+			// the translation observes (h was created by &T{…} in this function, so it is not nil)
+			if sel, ok := x.Lhs[0].(*ast.SelectorExpr); ok {
+				if id, ok := sel.X.(*ast.Ident); ok && t.vars[id.Name] == tOpaque {
+					if _, isVar := t.vars[id.Name]; isVar {
+						return t.stmts(rest, ind)
+					}
+				}
+			}
+		}
 		if (x.Tok == token.ASSIGN || x.Tok == token.ADD_ASSIGN) && len(x.Lhs) == 1 && len(x.Rhs) == 1 {
 			// assignment to a local, a named result, a receiver field or an array slot: the rest of
 			// the path sees the new value
